@@ -47,6 +47,7 @@ func checkC09(c *Ctx, e *Env) {
 		if mod == "x/ecocredit" {
 			importObligations(c, e, checkC01, "C01", "C09.LEDGER", "ledger#conserving", "genesis validation recomputes every batch's supply from the balances and rejects the export of a state in which they disagree; reachable states agree only while every handler conserves credits", func(o *Oblig) bool { return o.Rule == "C01.EQ" || o.Rule == "C01.FRESH" })
 			ruleSupplyCovered(c, m, r, "C09.COVER")
+			importObligations(c, e, checkC18, "C18", "C09.PARAMSET", "fee parameters#stored-in-the-validated-shape", "the fee setters store nil for an absent or zero fee and the request's coin otherwise — the two shapes the state validators accept; any other stored shape (a zero coin without denomination) is exported and then rejected by genesis validation", func(o *Oblig) bool { return o.Rule == "C18.SET" })
 			ruleGenesisPrecision(c, m, r, "x/ecocredit/v3/genesis")
 		}
 		genPkg := "x/ecocredit/v3/genesis"
